@@ -356,12 +356,45 @@ func c05Refresh(c *Ctx) {
 		})
 	}
 	if ok {
-		// ... and unconditionally there: a refresh that depends on the counter's old value (e.g. "only when it
-		// grows") cannot pull back a counter that ran ahead of the store, and the next event skips versions
-		for _, k := range p.withImplied(p.CondsAt(stores[0].Block())) {
-			if k.Atom.Has(func(x *Term) bool { return x.Op == "field" && x.Name == "version" && x.Args[0].IsParam(fn, 0) }) {
-				ok = false
-				got += " — stored only under " + k.String() + " (the refresh depends on the counter's old value)"
+		// ... and whenever the key is found the counter ends up equal to last+1: decided per path on every
+		// ordering of (old counter, last+1) — a path that skips the store must imply old == last+1 (so
+		// `if next != b.version { b.version = next }` is fine, "only when it grows" is not: it cannot pull
+		// back a counter that ran ahead of the store, and the next event skips versions)
+		newT := p.TermOf(stores[0].Val).Strip().String()
+		symOf := func(t *Term) (string, bool) {
+			if t.Op == "field" && t.Name == "version" && len(t.Args) > 0 && t.Args[0].IsParam(fn, 0) {
+				return "old", true
+			}
+			if t.String() == newT {
+				return "new", true
+			}
+			return "", false
+		}
+		if paths, okP := p.EnumPaths(fn, 4000); okP {
+			for _, pa := range paths {
+				if pa.Ret == nil || pa.Panics {
+					continue
+				}
+				found := hasCond(pa.Facts, func(k Cond) bool {
+					return k.Pol && k.Atom.Op == "EQ" && (k.Atom.Args[0].Name == "nil" && isErrorTerm(k.Atom.Args[1]) || k.Atom.Args[1].Name == "nil" && isErrorTerm(k.Atom.Args[0]))
+				})
+				stored := false
+				for _, b := range pa.Blocks {
+					if b == stores[0].Block() {
+						stored = true
+					}
+				}
+				if !found || stored {
+					continue
+				}
+				for o := 0; o <= 2 && ok; o++ {
+					for n := 0; n <= 2 && ok; n++ {
+						if o != n && condsHold(p, pa.Facts, symOf, map[string]int{"old": o, "new": n}) {
+							ok = false
+							got += fmt.Sprintf(" — with the last key found, a counter of %d is left as it is although last+1 is %d (the refresh depends on the counter's old value)", o, n)
+						}
+					}
+				}
 			}
 		}
 	}
